@@ -144,7 +144,41 @@ META["C08"] = {"files": ["parser.c"], "functions": ["get_first_char", "get_more_
                "assumptions": ["buffer sizes shrunk by hook (code parametric in the macros)", "malloc does not fail"],
                "outside": ["the 4096-byte byte buffer and ICU's incremental conversion", "inputs longer than the bound"]}
 
-REG = {"C20": c20, "C10": c10, "C18": c18, "C09": c09, "C08": c08}
+
+# ------------------------------------------------------------------------------------------ C14
+def c14(tier):
+    qs = []
+    shapes = [(2, 1, 1, 1, 1), (1, 2, 1, 1, 1), (1, 0, 2, 1, 1), (1, 0, 1, 2, 1), (1, 0, 1, 1, 2), (1, 1, 2, 2, 2), (2, 2, 1, 2, 2)]
+    if tier != "quick":
+        shapes += [(2, 1, 2, 2, 2), (2, 2, 2, 2, 2), (3, 1, 1, 2, 2), (1, 3, 1, 2, 2), (1, 1, 3, 2, 2), (1, 1, 1, 3, 2), (1, 1, 1, 2, 3)]
+    for (b, f, l, p, i) in shapes:
+        d = {"MAXB": b, "MAXF": f, "MAXL": l, "MAXP": p, "MAXI": i, "EXACT_SHAPE": None}
+        nev = 2 + b * (1 + f) * (2 + l * (2 + p * (2 + i)))
+        rec = ["__CPROVER_file_local_cif_c_walk_container:3", "ref_cont:3"]
+        qs.append(Q("C14_walk_%d%d%d%d%d" % (b, f, l, p, i), "h14_walk.c", defs=d, unwind=max(b * (1 + f), l, p, i) + 2, mode="func",
+                    unwindset=["harness.*:%d" % (nev + 2)] + rec, object_bits=12, libtus=["cif.c"], remove=[("cif.c", "cif_get_all_blocks")],
+                    replay_libs=ICU_LIBS, uthash="real", timeout=None,
+                    bounds={"tree": "%d blocks x %d frames each x %d loops per container x %d packets x %d items (concrete shape; shapes enumerated by the driver)" % (b, f, l, p, i),
+                            "handler program": "every assignment of {CONTINUE,SKIP_CURRENT,SKIP_SIBLINGS,END,7} to the %d callback invocations" % nev},
+                    note="real cif_walk/walk_* over a symbolic tree vs reference walker (MUST/MUSTNOT/MAY)"))
+    (b, f, l, p, i) = (1, 1, 1, 2, 1) if tier == "quick" else (2, 1, 1, 2, 1)
+    ncalls = 1 + b * (1 + f) * (2 + l * (1 + p))
+    for k in range(1, ncalls + 1):
+        d = {"MAXB": b, "MAXF": f, "MAXL": l, "MAXP": p, "MAXI": i, "FAIL_AT": k, "EXACT_SHAPE": None}
+        qs.append(Q("C14_walk_fail_at%02d" % k, "h14_walk.c", defs=d, unwind=6, mode=("func" if tier == "quick" else "safety"),
+                    unwindset=["harness.*:50", "__CPROVER_file_local_cif_c_walk_container:3"],
+                    object_bits=12, replay_libs=ICU_LIBS, uthash="real", libtus=["cif.c"], remove=[("cif.c", "cif_get_all_blocks")],
+                    bounds={"tree": "%dx%dx%dx%dx%d" % (b, f, l, p, i), "storage": "storage call number %d of %d fails" % (k, ncalls)},
+                    note="handles released, iterator closed, memory safety when a storage call fails; all handler programs"))
+    return qs
+
+
+META["C14"] = {"files": ["cif.c"], "functions": ["cif_walk", "walk_container", "walk_loops", "walk_loop", "walk_packet", "walk_item"],
+               "stubs": ["cif_get_all_blocks, cif_container_get_all_frames/_loops, cif_loop_get_packets, cif_pktitr_next_packet/_close, cif_*_free = symbolic tree"],
+               "assumptions": ["SKIP_SIBLINGS answered by an end callback is outside the claim (undocumented)", "frames nest one level"],
+               "outside": ["that the handles describe the stored content (C04/C06/C07)", "trees larger than the bound"]}
+
+REG = {"C20": c20, "C10": c10, "C18": c18, "C09": c09, "C08": c08, "C14": c14}
 
 
 def for_property(pid, tier):
@@ -189,3 +223,10 @@ MANI["C08"] = {
     "note": "buffer 8/16 units and BUF_MIN_FILL 4 via hook (code parametric in the macros - argued); chunks <= 3..4 units; memmove/memcpy "
             "specialised to UChar units in the CBMC build (real libc in replays); the byte buffer / ICU incremental decoding are outside; "
             "line counting of HANDLE_EOL is covered by the scanner queries of C01/C12 where listed"}
+
+MANI["C14"] = {
+    "text": "Bounded model checking of the real cif_walk and walk_* functions over a symbolic CIF tree and EVERY handler program "
+            "(a symbolic answer per callback invocation), against a reference walker that classifies each callback MUST / MUST-NOT / MAY; "
+            "also handle release on every path and result codes.",
+    "note": "storage API below the walker replaced by a symbolic tree (<= 2 blocks x 1-2 frames x 1-2 loops x 2 packets x 2 items); "
+            "permissive on end callbacks after SKIP answers (documentation silent); SKIP_SIBLINGS from end callbacks assumed away"}
